@@ -11,12 +11,14 @@ def runs(tier, seed, criteria=None, vary_sjwd=False):
     n = 6 if tier == "quick" else 60
     out = []
     for ki, kind in enumerate(S.KINDS):
-        for j in range(n):
+        # schedulers that stop trials while events of several other trials are queued get more runs (n_workers >= 2)
+        extra = (12 if tier == "quick" else 60) if kind in ("hb_stopping", "hb_promotion_nomra") else 0
+        for j in range(n + extra):
             s = seed * 7919 + ki * 131 + j
             conf = {"tab": S.big_table(kind="nonmono" if j % 3 == 2 else "mono"), "dres": (j % 3) * u, "dfin": (j % 3 + j % 2) * u,
                     "dstop": (1 + j % 2) * u * (j % 4 != 3), "dstart": (j % 2) * u, "dcstop": u * (j % 3 != 1),
                     "sleep": (8 + 8 * (j % 3)) * u, "ckpt": j % 4 != 1, "mra": kind != "hb_promotion_nomra", "seed": 0}
-            nw = 1 + j % 4
+            nw = 1 + j % 4 if j < n else 2 + j % 3
             crit = criteria[j % len(criteria)] if criteria else ({"max_num_trials_started": 8 + j % 4}, "started", 8 + j % 4, False)
             if crit[1] != "started" and kind not in ("fifo", "hb_stopping"):
                 # pause-and-resume schedulers may keep every trial paused: a finished / completed budget need never hold
